@@ -2,6 +2,9 @@ package symex
 
 import (
 	"fmt"
+	"os"
+	"runtime/debug"
+	"sync/atomic"
 	"go/types"
 	"sort"
 
@@ -31,7 +34,8 @@ const (
 	opWGWait
 	opCondWake
 	opAtomic // atomic memory operation / misc visible op on objs
-	opGlobal // vAtomic block: dependent with everything
+	opGlobal // dependent with everything
+	opGhost  // vAtomic block / vAwait: touches harness ghost state only (dependent with other ghost ops)
 	opAwait
 	opQuiesce
 	opSleepUntil
@@ -90,6 +94,8 @@ type Chan struct {
 	sendq  []*waiter
 }
 
+var ghostObj = new(int)
+
 type sleepEntry struct {
 	id   int // goroutine id or event id
 	objs []interface{}
@@ -103,6 +109,9 @@ type runtimeState struct {
 	aborting bool
 	forward  interface{} // engine panic raised in a non-main goroutine
 	nextChan int
+	preemptions int
+	running int32
+	log []string
 	sleep    []sleepEntry
 	exited   chan struct{}
 	live     int // OS goroutines started for this path and not yet exited
@@ -115,9 +124,10 @@ type runtimeState struct {
 
 func newRuntimeState(ex *Exec) *runtimeState {
 	rt := &runtimeState{ex: ex, exited: make(chan struct{}, 1024)}
-	g0 := &Goroutine{id: 0, wake: make(chan struct{}, 1), fn: "main"}
+	g0 := &Goroutine{id: 0, wake: make(chan struct{}), fn: "main"}
 	rt.gs = []*Goroutine{g0}
 	rt.cur = g0
+	rt.running = 1
 	return rt
 }
 
@@ -136,10 +146,7 @@ func (rt *runtimeState) killAll() {
 	for _, g := range rt.gs[1:] {
 		if !g.done {
 			g.done = true
-			select {
-			case g.wake <- struct{}{}:
-			default:
-			}
+			g.wake <- struct{}{} // every such goroutine is at (or about to reach) its receive
 		}
 	}
 	for rt.live > 0 {
@@ -150,7 +157,7 @@ func (rt *runtimeState) killAll() {
 
 func (rt *runtimeState) spawn(fr *frame, fn Value, args []Value) {
 	ex := rt.ex
-	g := &Goroutine{id: len(rt.gs), wake: make(chan struct{}, 1), pending: &pendingOp{kind: opStart}}
+	g := &Goroutine{id: len(rt.gs), wake: make(chan struct{}), pending: &pendingOp{kind: opStart}}
 	if f, ok := fn.(*ssa.Function); ok {
 		g.fn = f.String()
 	} else if c, ok := fn.(*Closure); ok {
@@ -166,6 +173,9 @@ func (rt *runtimeState) spawn(fr *frame, fn Value, args []Value) {
 		<-g.wake
 		if rt.aborting {
 			return
+		}
+		if n := atomic.AddInt32(&rt.running, 1); n != 1 {
+			panic(fmt.Sprintf("engine: %d goroutines running after starting g%d", n, g.id))
 		}
 		defer func() {
 			r := recover()
@@ -190,10 +200,14 @@ func (rt *runtimeState) spawn(fr *frame, fn Value, args []Value) {
 
 // abortToMain wakes the main goroutine so that it re-raises rt.forward.
 func (rt *runtimeState) abortToMain(from *Goroutine) {
+	if schedTrace {
+		rt.log = append(rt.log, fmt.Sprintf("abortToMain from g%d forward=%v", from.id, rt.forward))
+	}
 	from.done = true
 	g0 := rt.gs[0]
 	rt.aborting = true
 	rt.cur = g0
+	atomic.AddInt32(&rt.running, -1)
 	g0.wake <- struct{}{}
 }
 
@@ -203,7 +217,13 @@ func (rt *runtimeState) parkMain() {
 
 // wait parks g until it is woken.
 func (rt *runtimeState) wait(g *Goroutine) {
+	if schedTrace && len(g.wake) > 0 {
+		rt.log = append(rt.log, fmt.Sprintf("STALE TOKEN for g%d cur=g%d", g.id, rt.cur.id))
+	}
 	<-g.wake
+	if n := atomic.AddInt32(&rt.running, 1); n != 1 && !rt.aborting {
+		panic(fmt.Sprintf("engine: %d goroutines running after waking g%d", n, g.id))
+	}
 	if rt.aborting {
 		if g.id == 0 {
 			if rt.forward != nil {
@@ -223,6 +243,11 @@ func (rt *runtimeState) footprint(p *pendingOp) (objs []interface{}, glob bool) 
 	switch p.kind {
 	case opStart, opResume:
 		return nil, false
+	case opGhost, opAwait:
+		if os.Getenv("VERIF_GHOST_GLOBAL") != "" {
+			return nil, true
+		}
+		return []interface{}{ghostObj}, false
 	case opSend, opRecv, opClose:
 		return []interface{}{p.ch}, false
 	case opSelect:
@@ -266,7 +291,7 @@ func (rt *runtimeState) enabled(g *Goroutine) bool {
 		return p.completed
 	}
 	switch p.kind {
-	case opStart, opResume, opClose, opUnlock, opAtomic, opGlobal, opSend, opRecv, opSelect:
+	case opStart, opResume, opClose, opUnlock, opAtomic, opGlobal, opGhost, opSend, opRecv, opSelect:
 		return true // arriving at a channel operation is always possible; it may then park
 	case opLock, opRLock, opWGWait, opCondWake, opAwait, opSleepUntil:
 		return p.cond()
@@ -280,6 +305,9 @@ func (rt *runtimeState) enabled(g *Goroutine) bool {
 // It returns when `from` has been chosen to perform its pending operation.
 func (rt *runtimeState) reschedule(from *Goroutine) {
 	ex := rt.ex
+	if rt.cur != from && !rt.aborting {
+		panic(fmt.Sprintf("engine: goroutine g%d reschedules while g%d holds the baton", from.id, rt.cur.id))
+	}
 	if from.atomic > 0 && !from.done {
 		return
 	}
@@ -309,6 +337,35 @@ func (rt *runtimeState) reschedule(from *Goroutine) {
 				rt.deadlock(from)
 			}
 		}
+		// preemption bounding: switching away from a goroutine that could continue costs one unit
+		if ex.cfg.PreemptBound >= 0 {
+			fromEnabled := !from.done && rt.enabled(from)
+			if fromEnabled && rt.preemptions >= ex.cfg.PreemptBound {
+				alts = []int{from.id}
+			}
+			sort.Ints(alts)
+			pick := ex.choose("sched", alts)
+			if fromEnabled && pick != from.id {
+				rt.preemptions++
+			}
+			if pick >= eventBase {
+				rt.runEvent(pick, from)
+				continue
+			}
+			to := rt.gs[pick]
+			if to == from {
+				return
+			}
+			rt.cur = to
+			exiting := from.done && from.id != 0 // read before the hand-off: killAll may set done later
+			atomic.AddInt32(&rt.running, -1)
+			to.wake <- struct{}{}
+			if exiting {
+				return
+			}
+			rt.wait(from)
+			return
+		}
 		// sleep-set filtering
 		var cands []int
 		for _, a := range alts {
@@ -329,6 +386,10 @@ func (rt *runtimeState) reschedule(from *Goroutine) {
 		}
 		sort.Ints(cands)
 		pick := ex.choose("sched", cands)
+		if schedTrace {
+			line := fmt.Sprintf("sched: from=g%d(done=%v) alts=%v cands=%v pick=%d sleep=%v pend=%s", from.id, from.done, alts, cands, pick, rt.sleepIDs(), rt.pendDesc())
+			rt.log = append(rt.log, line)
+		}
 		// new sleep set: old sleepers and earlier siblings that are independent of the picked transition
 		pObjs, pGlob := rt.transFootprint(pick)
 		var ns []sleepEntry
@@ -356,8 +417,10 @@ func (rt *runtimeState) reschedule(from *Goroutine) {
 			return
 		}
 		rt.cur = to
+		exiting := from.done && from.id != 0 // read before the hand-off: killAll may set done later
+		atomic.AddInt32(&rt.running, -1)
 		to.wake <- struct{}{}
-		if from.done && from.id != 0 {
+		if exiting {
 			return // this OS goroutine exits
 		}
 		rt.wait(from)
@@ -393,6 +456,9 @@ func (rt *runtimeState) endPath(from *Goroutine, reason interface{}) {
 
 func (rt *runtimeState) deadlock(from *Goroutine) {
 	ex := rt.ex
+	if rt.aborting && schedTrace {
+		fmt.Fprintf(os.Stderr, "DEADLOCK-WHILE-ABORTING %s\n", debug.Stack())
+	}
 	// describe who is blocked where
 	desc := ""
 	for _, g := range rt.gs {
@@ -404,6 +470,12 @@ func (rt *runtimeState) deadlock(from *Goroutine) {
 			k = fmt.Sprintf("blocked(op=%d)", g.pending.kind)
 		}
 		desc += fmt.Sprintf("g%d[%s]:%s ", g.id, g.fn, k)
+	}
+	if schedTrace {
+		for _, l := range rt.log {
+			fmt.Fprintln(os.Stderr, l)
+		}
+		fmt.Fprintln(os.Stderr, "DEADLOCK", desc, "from=", from.id, "aborting=", rt.aborting, rt.pendDesc())
 	}
 	ex.note("deadlock", desc)
 	ex.reportEvent("deadlock", desc)
@@ -685,3 +757,27 @@ func (rt *runtimeState) doSelect(fr *frame, instr *ssa.Select) Value {
 
 // noteAccess is the hook for the data-race check on plain memory accesses.
 func (rt *runtimeState) noteAccess(fr *frame, a *Value, write bool) {}
+
+var schedTrace = os.Getenv("VERIF_TRACE_SCHED") != ""
+
+func (rt *runtimeState) sleepIDs() []int {
+	var out []int
+	for _, s := range rt.sleep {
+		out = append(out, s.id)
+	}
+	return out
+}
+
+func (rt *runtimeState) pendDesc() string {
+	out := ""
+	for _, g := range rt.gs {
+		k := -1
+		pk, cm := false, false
+		if g.pending != nil {
+			k = int(g.pending.kind)
+			pk, cm = g.pending.parked, g.pending.completed
+		}
+		out += fmt.Sprintf("[g%d done=%v op=%d parked=%v compl=%v]", g.id, g.done, k, pk, cm)
+	}
+	return out
+}
